@@ -2,7 +2,7 @@
    Property theorems only; proofs live in Bac.PrimInt / PrimBits / PrimFacts / PrimFloat.
    The model (Bac.Prim) is the repaired code: Integer.encode refuses values outside 32 bits
    ("fix: Integer.encode refuses ...") and SecurityLevel is a bijection ("fix: SecurityLevel ..."). *)
-From Bac Require Import Base Tag TagFacts Prim PrimTables PrimInt PrimBits PrimFacts PrimFloat.
+From Bac Require Import Base Tag TagFacts Prim PrimTables PrimInt PrimBits PrimFacts PrimFloat PrimObj PrimObjFacts.
 Open Scope N_scope.
 
 (* ---- round trip, application tagging: whatever encode(tag) produces, decode(tag) of the same class
@@ -146,6 +146,44 @@ Theorem C01_enum_roundtrip_all : forall name tb v t,
 Proof. exact enum_roundtrip_all. Qed.
 Print Assumptions C01_enum_roundtrip_all.
 
+(* ---- object life cycles (model PrimObj: one object that is encoded, decoded into, re-set through the
+   public setters, copied, and encoded again).  The state of an object is its value; the
+   correspondence check verifies after arbitrary histories that the implementation keeps nothing else. *)
+
+(* whatever two histories did before: if the objects hold the same value now, an encode call shows the
+   same octets (or the same refusal) — and leaves the value as it is *)
+Theorem C01_encode_depends_on_value_only : forall tb otb maxi k s1 s2 h1 h2 o,
+  is_encode o ->
+  final tb otb maxi k s1 h1 = final tb otb maxi k s2 h2 ->
+  fst (step tb otb maxi k (final tb otb maxi k s1 h1) o) = fst (step tb otb maxi k (final tb otb maxi k s2 h2) o) /\
+  snd (step tb otb maxi k (final tb otb maxi k s1 h1) o) = final tb otb maxi k s1 h1.
+Proof. exact encode_depends_on_value_only. Qed.
+Print Assumptions C01_encode_depends_on_value_only.
+
+Theorem C01_encode_keeps_value : forall tb otb maxi k s o,
+  is_encode o \/ o = OGetLong -> snd (step tb otb maxi k s o) = s.
+Proof. exact encode_keeps_state. Qed.
+Print Assumptions C01_encode_keeps_value.
+
+(* the round trip holds at the end of every history, and decoding into a live object gives what a fresh
+   one would hold, whatever it held before *)
+Theorem C01_history_roundtrip : forall tb otb maxi k s0 h v t s',
+  final tb otb maxi k s0 h = v ->
+  enum_bijective tb = true -> prim_ok tb v -> enc_app tb v = Ok t ->
+  fst (step tb otb maxi k v OEncApp) = ores zs (enc_octets_app tb v) /\
+  step tb otb maxi (kind v) s' (ODecode t) = ([0%Z], v).
+Proof. exact history_roundtrip. Qed.
+Print Assumptions C01_history_roundtrip.
+
+(* ObjectIdentifier.set_long(w) on any object: the next encode emits the four octets of w *)
+Theorem C01_objid_set_long_encode : forall tb otb maxi t0 i0 w,
+  enum_bijective otb = true -> (0 <= w < 4294967296)%Z ->
+  let s := snd (step tb otb maxi 12 (PObjId t0 i0) (OSetLong w)) in
+  enc_app otb s = Ok (app_tag 12 (be4 (Z.to_N w))) /\
+  fst (step tb otb maxi 12 s OGetLong) = [0%Z; w].
+Proof. exact objid_set_long_encode. Qed.
+Print Assumptions C01_objid_set_long_encode.
+
 (* ---- non-vacuity: the hypotheses are satisfiable and the conclusions are about real encodings *)
 Example C01_ex_values :
   map (enc_octets_app E_basetypes_SecurityLevel)
@@ -174,4 +212,20 @@ Qed.
 Example C01_ex_wire_ctx :
   dec_octets_ctx objid_type_table 12 [44; 2; 0; 0; 5; 99] (* context 2, device:5, one octet follows *)
   = Ok (PObjId (EName "device") 5, [99]).
+Proof. vm_compute. reflexivity. Qed.
+(* a life cycle: encode, set_tuple to another identifier, encode again — the second encode shows the new word;
+   then a UCS-2 string decoded into an object that held ASCII text is re-emitted with its own octets *)
+Example C01_ex_history_objid :
+  run objid_type_table objid_type_table objid_max_instance 12 (PObjId (EName "loadControl") 1961578)
+      [OEncApp; OSetTuple (ENum 8) 5; OEncApp]
+  = ([1; 0; 196; 7; 29; 238; 106]%Z ++ canon_prim (PObjId (EName "loadControl") 1961578) ++
+     [6; 0]%Z ++ canon_prim (PObjId (EName "device") 5) ++
+     [1; 0; 196; 2; 0; 0; 5]%Z ++ canon_prim (PObjId (EName "device") 5))%list.
+Proof. vm_compute. reflexivity. Qed.
+Example C01_ex_history_chars :
+  run [] objid_type_table objid_max_instance 7 (PChars 0 [65; 66])
+      [OEncApp; ODecode (mkTag 0 7 3 [4; 0; 233]); OEncCtx 1]
+  = ([1; 0; 115; 0; 65; 66]%Z ++ canon_prim (PChars 0 [65; 66]) ++
+     [3; 0]%Z ++ canon_prim (PChars 4 [0; 233]) ++
+     [2; 0; 27; 4; 0; 233]%Z ++ canon_prim (PChars 4 [0; 233]))%list.
 Proof. vm_compute. reflexivity. Qed.
